@@ -58,6 +58,12 @@ class ValueAllocator:
         If the values passed in are already allocated to differing registers, a
         `DiagnosticException` is raised.
         """
+        # A value may occur several times in `vals`, and callers may hold on to values
+        # that an earlier call has already replaced: always work on the current values,
+        # each only once, so that no value is replaced twice.
+        vals = tuple(
+            dict.fromkeys(self.new_value_by_old_value.get(val, val) for val in vals)
+        )
         reg_types = set(val.type for val in vals)
         assert all(
             isinstance(reg_type, self.register_base_class) for reg_type in reg_types
